@@ -262,6 +262,12 @@ SPELLINGS = {
     "odd_0_prefixed": lambda h: "0" + h,
     "fullwidth_digit": lambda h: "１" + h[1:],
     "arabic_digit": lambda h: "١" + h[1:],
+    # shapes that are cheap to refuse for a linear scan and ruinous for a pattern matcher that backtracks: many
+    # blank-separated pairs (each blank can belong to the pair before or after it) and then something invalid
+    "pairs_then_bad": lambda h: " ".join([h[:2], h[2:4] or "ab"] * 24) + " z",
+    "pairs_tabs_then_odd": lambda h: "\t".join([h[:2], h[2:4] or "ab"] * 30) + "\ta",
+    "blank_run": lambda h: h[:2] + " " * 3000 + h[2:6] + "zz",
+    "pairs_3000_then_bad": lambda h: " ".join([h[:2]] * 3000) + " g0",
 }
 
 
